@@ -17,8 +17,8 @@ ID = "C04"
 CASES = {"quick": 900, "thorough": 10000}
 FLOOR = {"quick": 700, "thorough": 8000}
 FLOOR_COUNTERS = {
-    "quick": {"earlier_data_with_the_same_shape_means_and_norms": 500, "more_than_4096_rows": 25, "caller_buffers_overwritten_after_fit": 300, "fits_through_fit_transform": 400, "configured_not_by_constructor": 400, "non_default_containers": 400, "objective_judgments": 2500, "competitors_tried": 20000, "grids_judged": 600, "pca_limit_judged": 400, "regression_limit_judged": 250, "regression_limit_with_surplus_components": 100, "arpack_grids": 60, "randomized_grids": 60},
-    "thorough": {"earlier_data_with_the_same_shape_means_and_norms": 5500, "more_than_4096_rows": 300, "caller_buffers_overwritten_after_fit": 4000, "fits_through_fit_transform": 5000, "configured_not_by_constructor": 5000, "non_default_containers": 5000, "objective_judgments": 30000, "competitors_tried": 250000, "grids_judged": 7000, "pca_limit_judged": 5000, "regression_limit_judged": 3000, "regression_limit_with_surplus_components": 1200, "arpack_grids": 800, "randomized_grids": 800},
+    "quick": {"mixings_within_1e-5_of_one_on_tied_directions": 300, "earlier_data_with_the_same_shape_means_and_norms": 500, "more_than_4096_rows": 25, "caller_buffers_overwritten_after_fit": 300, "fits_through_fit_transform": 400, "configured_not_by_constructor": 400, "non_default_containers": 400, "objective_judgments": 2500, "competitors_tried": 20000, "grids_judged": 600, "pca_limit_judged": 400, "regression_limit_judged": 250, "regression_limit_with_surplus_components": 100, "arpack_grids": 60, "randomized_grids": 60},
+    "thorough": {"mixings_within_1e-5_of_one_on_tied_directions": 4000, "earlier_data_with_the_same_shape_means_and_norms": 5500, "more_than_4096_rows": 300, "caller_buffers_overwritten_after_fit": 4000, "fits_through_fit_transform": 5000, "configured_not_by_constructor": 5000, "non_default_containers": 5000, "objective_judgments": 30000, "competitors_tried": 250000, "grids_judged": 7000, "pca_limit_judged": 5000, "regression_limit_judged": 3000, "regression_limit_with_surplus_components": 1200, "arpack_grids": 800, "randomized_grids": 800},
 }
 RULE = (
     "case = centred X, Y (1-3 targets), k, space, a grid of 9 mixings from 0 to 1 (exact least-squares regressor) plus "
@@ -202,6 +202,29 @@ def run(case, j):
         past = np.random.default_rng(case["cseed"] + 23) if (case["cseed"] % 2 == 0 and i_ == 0) else None
         est = pc.fit_pcovr(j, f"ridge a={a:.3f}", X, Y, rg, regressor_obj=rgobj, past=past, mixing=a, n_components=k, space=space, **skw)
         _judge_objective(j, rng, a, X, Yhr, np.asarray(est.transform(X)), k, "ridge")
+    if case["cseed"] % 5 == 0:
+        # ---- a mixing just below 1 on a well-conditioned table whose k-th and (k+1)-th principal directions are exactly
+        # tied: PCA cannot tell them apart, the mixed objective can (the target lies along one of them), and with all
+        # singular values within a factor 3 the closed-form optimum is known to ~1e-14, so the tolerance can be 1e-9
+        from skmatter.decomposition import PCovR as _PCovR
+
+        nn, mm, kk = int(rng.integers(12, 20)), int(rng.integers(4, 7)), 2
+        Un, Vm = np.linalg.qr(rng.normal(size=(nn, mm)))[0], np.linalg.qr(rng.normal(size=(mm, mm)))[0]
+        Un = Un - Un.mean(axis=0)
+        Un = np.linalg.qr(Un)[0]
+        s_ = np.concatenate([[3.0, 2.0, 2.0], np.linspace(1.5, 1.0, mm - 3)])
+        Xd = (Un * s_) @ Vm.T
+        Xd = Xd - Xd.mean(axis=0)
+        Yd = (Xd @ Vm[:, 2:3]) * 1.5 + 0.05 * (Xd @ rng.normal(size=(mm, 1)))  # along the third direction
+        for a_ in (1.0 - 2.0**-18, 1.0 - 2.0**-21):
+            for sp_ in ("feature", "sample"):
+                e_ = _PCovR(mixing=a_, n_components=kk, space=sp_, regressor=LinearRegression(fit_intercept=False), svd_solver="full")
+                j.lib(f"fit:mixing just below one ({sp_})", e_.fit, Xd, Yd)
+                Kt_ = pc.ktilde(a_, Xd, Yd)
+                w_ = pc.spectrum(Kt_)
+                Q_ = np.linalg.svd(np.asarray(e_.transform(Xd)), full_matrices=False)[0]
+                j.close("objective attains the closed-form optimum [mixing just below 1, tied principal directions]", _J(a_, Xd, Yd, Q_), float(np.trace(Kt_)) - float(w_[:kk].sum()), 1e-9 * float(np.trace(Kt_)), {"mixing": a_, "space": sp_})
+                j.note("mixings_within_1e-5_of_one_on_tied_directions")
     if case.get("many_rows"):
         for a_ in (0.0, 0.4, 1.0):
             pc.many_rows_relation(j, X, Y, {"kind": "lr"} if full_col else {"kind": "ridge", "alpha": 1e-3}, a_, min(k, m))
